@@ -32,3 +32,74 @@ pub fn coq_list_z(xs: &[i64]) -> String {
     let v: Vec<String> = xs.iter().map(|x| if *x < 0 { format!("({})", x) } else { x.to_string() }).collect();
     format!("[{}]", v.join(";"))
 }
+
+/// Integer-valued test data in [-8, 8]; the same formula is `gen` in coq/gemm/ModelC16.v.
+pub fn gen_val(s: u64, i: u64, j: u64) -> i64 {
+    ((s * 7919 + i * 31 + j * 17 + ((i * j) % 7) * 5 + (((i + s) * (j + 3)) % 11)) % 17) as i64 - 8
+}
+
+/// Sentinel printed for an output value that is not an exactly representable integer (NaN,
+/// infinity, fraction, out of range): never equal to a specified value.
+pub const GARBAGE: i64 = 99_999_999_999;
+
+pub fn f32_to_int(x: f32) -> i64 {
+    if x.is_finite() && x.fract() == 0.0 && x.abs() <= 16_777_216.0 { x as i64 } else { GARBAGE }
+}
+
+/// Parse `key=value` tokens.
+pub fn parse_kv(line: &str) -> std::collections::HashMap<String, String> {
+    let mut m = std::collections::HashMap::new();
+    for tok in line.split_whitespace() {
+        if let Some((k, v)) = tok.split_once('=') {
+            m.insert(k.to_string(), v.to_string());
+        } else {
+            m.insert("kind".to_string(), tok.to_string());
+        }
+    }
+    m
+}
+
+pub fn get_u(m: &std::collections::HashMap<String, String>, k: &str) -> usize {
+    m.get(k).map(|v| v.parse::<usize>().unwrap()).unwrap_or(0)
+}
+pub fn get_i(m: &std::collections::HashMap<String, String>, k: &str) -> i64 {
+    m.get(k).map(|v| v.parse::<i64>().unwrap()).unwrap_or(0)
+}
+
+pub fn coq_z(x: i64) -> String {
+    if x < 0 { format!("({})%Z", x) } else { format!("{}%Z", x) }
+}
+
+/// Strided storage for a `rows x cols` matrix. Layout codes:
+/// 0 row-major contiguous; 1 column-major (row stride 1); 2 both strides non-unit;
+/// 3 row-major with padded rows; 4 column-major with padded columns.
+/// Cells that do not belong to the matrix hold `fill`.
+pub struct Strided<T> {
+    pub data: Vec<T>,
+    pub offset: usize,
+    pub rs: usize,
+    pub cs: usize,
+}
+
+pub fn strides_for(layout: usize, rows: usize, cols: usize) -> (usize, usize) {
+    match layout {
+        0 => (cols.max(1), 1),
+        1 => (1, rows.max(1)),
+        2 => (2 * cols + 3, 2),
+        3 => (cols + 5, 1),
+        _ => (1, rows + 2),
+    }
+}
+
+pub fn make_strided<T: Copy>(layout: usize, rows: usize, cols: usize, fill: T, f: impl Fn(usize, usize) -> T) -> Strided<T> {
+    let (rs, cs) = strides_for(layout, rows, cols);
+    let offset = if layout == 0 { 0 } else { 3 };
+    let len = if rows == 0 || cols == 0 { 0 } else { (rows - 1) * rs + (cols - 1) * cs + 1 };
+    let mut data = vec![fill; offset + len + if layout == 0 { 0 } else { 2 }];
+    for i in 0..rows {
+        for j in 0..cols {
+            data[offset + i * rs + j * cs] = f(i, j);
+        }
+    }
+    Strided { data, offset, rs, cs }
+}
